@@ -581,6 +581,61 @@ func runR127(c *Ctx) {
 	c.Check(sk != nil && sk == sw, name, "shard-entry", c.Pos(s.call.Pos()), "a shard's key and weight come from one map entry", "the Key and Weight of an appended Shard do not come from one and the same iteration of the range over the configured shards")
 	c.Check(bk != nil && bk == bb, name, "backend-entry", c.Pos(b.call.Pos()), "a backend and its key come from one map entry", "the Backend and Key of an appended ShardBackend do not come from one and the same iteration of the range over the configured shards")
 	c.Check(sk != nil && sk == bk, name, "lock-step", c.Pos(s.call.Pos()), "shards[i] and backends[i] are appended in the same iteration", "the []Shard and the []ShardBackend are filled in different iterations (two separate ranges over a map visit the entries in different random orders): the index the selector returns for key K addresses the backend of another key, differently on every start")
+	// the lists are not touched again before they reach the constructors: the
+	// weights the selector sees are the configured ones
+	for _, lst := range []struct {
+		a    app
+		what string
+	}{{s, "shard"}, {b, "backend"}} {
+		alias := map[ssa.Value]bool{ssa.Value(lst.a.call): true}
+		for changed := true; changed; {
+			changed = false
+			allInstrs(bare, func(ins ssa.Instruction) {
+				v, ok := ins.(ssa.Value)
+				if !ok || alias[v] {
+					return
+				}
+				switch x := ins.(type) {
+				case *ssa.Phi:
+					for _, e := range x.Edges {
+						if alias[e] {
+							alias[v], changed = true, true
+						}
+					}
+				case *ssa.Slice:
+					if alias[x.X] {
+						alias[v], changed = true, true
+					}
+				}
+			})
+		}
+		var badStore *ssa.Store
+		allInstrs(bare, func(ins ssa.Instruction) {
+			st, ok := ins.(*ssa.Store)
+			if !ok || badStore != nil {
+				return
+			}
+			a := st.Addr
+			for i := 0; i < 4; i++ {
+				switch x := a.(type) {
+				case *ssa.FieldAddr:
+					a = x.X
+					continue
+				case *ssa.IndexAddr:
+					if alias[x.X] {
+						badStore = st
+					}
+				}
+				break
+			}
+		})
+		c.Check(badStore == nil, name, lst.what+"-list-untouched", c.Pos(func() token.Pos {
+			if badStore != nil {
+				return badStore.Pos()
+			}
+			return lst.a.call.Pos()
+		}()), "elements are not rewritten after they were appended", "an element of the "+lst.what+" list is rewritten after it was appended (for example weights rescaled across all shards): a shard's effective weight then depends on the other shards, so removing or adding one shard re-routes objects between shards that were not touched")
+	}
 	// and the two appends are unconditional relative to each other: both in the same loop, neither skipped on a non-error path
 	if sk != nil && sk == bk {
 		hdr := sk.Block()
@@ -741,7 +796,7 @@ func runR128(c *Ctx) {
 
 func init() {
 	register(&Rule{
-		ID: "R16.5", Props: []string{"C16"}, Engine: "typestate (path automaton over the reader field)",
+		ID: "R16.5", Props: []string{"C16", "C15"}, Engine: "typestate (path automaton over the reader field)",
 		Text:  "a failed stream is closed exactly once: in errorHandlingReader.Read and errorHandlingChunkReader.Read, once the current underlying reader (the field the read goes through) has been closed, every path installs a replacement in that field before the method returns, loops or touches the field again – otherwise the reader's own Close would close the same stream a second time and its handler would see Done twice",
 		Floor: 2, MustExist: true, Run: runR165,
 	})
@@ -3166,5 +3221,334 @@ func runR034(c *Ctx) {
 	}
 	if n == 0 {
 		c.Fail("OldCurrentNewLocationBlobMap", "policy-decides", "-", "the layout counters are never incremented")
+	}
+}
+
+// ---------------------------------------------------------------------------
+// R13.5, R13.6
+
+const completenessRel = "pkg/blobstore/completenesschecking"
+
+func init() {
+	register(&Rule{
+		ID: "R13.5", Props: []string{"C13"}, Engine: "guard (SSA dominance) + loop-carried value shape",
+		Text: "the Tree size limit is a budget over all Trees of one ActionResult: in checkCompleteness every read of a Tree from the CAS is dominated by `size of this Tree <= remaining budget`, where the remaining budget is a loop-carried value that starts at maximumTotalTreeSizeBytes and is decreased by the size of every Tree that was admitted; and findMissingQueue.add enqueues every digest it is given – the only conditions under which a digest is not added to the pending set are: the digest pointer is nil, or an error is returned",
+		Floor: 2, MustExist: true, Run: runR135,
+	})
+	register(&Rule{
+		ID: "R13.6", Props: []string{"C13"}, Engine: "path automaton (SSA)",
+		Text: "a Tree that ends in the middle of a field is an error: in util.VisitProtoBytesFields, once a bufio.Reader.Discard reported any error – io.EOF included – no path continues with the next field or returns nil (only the Peek that starts a field may treat io.EOF with nothing buffered as the clean end of the message)",
+		Floor: 2, MustExist: true, Run: runR136,
+	})
+}
+
+func runR135(c *Ctx) {
+	fn := c.Method(completenessRel, "completenessCheckingBlobAccess", "checkCompleteness")
+	add := c.Method(completenessRel, "findMissingQueue", "add")
+	if fn == nil || add == nil {
+		c.Broken("checkCompleteness / findMissingQueue.add not found")
+		return
+	}
+	name := FuncName(fn)
+	n := 0
+	allInstrs(fn, func(ins ssa.Instruction) {
+		cl, ok := ins.(*ssa.Call)
+		if !ok || !cl.Call.IsInvoke() || cl.Call.Method.Name() != "Get" {
+			return
+		}
+		if f, _ := loadedField(cl.Call.Value); f == nil || f.Name() != "contentAddressableStorage" {
+			return
+		}
+		n++
+		okBudget := false
+		why := "the read of a Tree is not guarded by a comparison of its size with a remaining budget"
+		edgeFacts(cl.Block(), func(cond ssa.Value, val bool) bool {
+			op, x, y, ok := normCmp(cond, val)
+			if !ok {
+				return true
+			}
+			var size, budget ssa.Value
+			switch op {
+			case token.LEQ:
+				size, budget = x, y
+			case token.GEQ:
+				size, budget = y, x
+			default:
+				return true
+			}
+			sc, isCall := stripConv(size).(*ssa.Call)
+			if !isCall {
+				return true
+			}
+			if o := calleeObjOf(sc.Common()); o == nil || o.Name() != "GetSizeBytes" {
+				return true
+			}
+			phi, isPhi := budget.(*ssa.Phi)
+			if !isPhi {
+				why = "the size of each Tree is compared with a fixed value instead of the budget that remains after the Trees already admitted: any number of Trees that each fit the limit are read, and the configured total is never enforced"
+				return true
+			}
+			initOK, stepOK := false, false
+			for _, e := range phi.Edges {
+				if f, _ := loadedField(stripConv(e)); f != nil && f.Name() == "maximumTotalTreeSizeBytes" {
+					initOK = true
+				}
+				if bo, isB := e.(*ssa.BinOp); isB && bo.Op == token.SUB && bo.X == ssa.Value(phi) && (bo.Y == size || sameSource(bo.Y, size)) {
+					stepOK = true
+				}
+			}
+			if initOK && stepOK {
+				okBudget = true
+				return false
+			}
+			why = "the budget the Tree size is compared with is not `starts at the configured maximum, minus every admitted Tree`"
+			return true
+		})
+		c.Check(okBudget, name, "tree-budget", c.Pos(cl.Pos()), "size <= remaining budget, budget decreases by every admitted Tree", why)
+	})
+	if n == 0 {
+		c.Fail(name, "tree-budget", c.Pos(fn.Pos()), "no Tree is read from the CAS")
+	}
+	// add(): which conditions can keep a digest out of the pending set
+	aname := FuncName(add)
+	nAdd := 0
+	allInstrs(add, func(ins ssa.Instruction) {
+		cl, ok := ins.(*ssa.Call)
+		if !ok {
+			return
+		}
+		o := calleeObjOf(cl.Common())
+		if o == nil || o.Name() != "Add" {
+			return
+		}
+		if nt := recvNamed(o); nt == nil || nt.Obj().Name() != "SetBuilder" {
+			return
+		}
+		nAdd++
+		bad := ""
+		edgeFacts(cl.Block(), func(cond ssa.Value, val bool) bool {
+			cnd := cond
+			for {
+				if u, ok := cnd.(*ssa.UnOp); ok && u.Op == token.NOT {
+					cnd = u.X
+					continue
+				}
+				break
+			}
+			if x, _, isNil := nilTest(cnd); isNil {
+				if _, isParam := x.(*ssa.Parameter); isParam || isErrorType(x.Type()) {
+					return true
+				}
+			}
+			if bo, isB := cnd.(*ssa.BinOp); isB {
+				for _, side := range []ssa.Value{bo.X, bo.Y} {
+					if lc, isC := side.(*ssa.Call); isC {
+						if lo := calleeObjOf(lc.Common()); lo != nil && lo.Name() == "Length" {
+							return true
+						}
+					}
+				}
+			}
+			bad = c.Pos(cond.Pos())
+			return false
+		})
+		c.Check(bad == "", aname, "enqueues-all", c.Pos(cl.Pos()), "every non-nil digest is enqueued", "whether a digest is enqueued for the existence check depends on a condition (at "+bad+") other than `the pointer is nil` or an error: digests that meet it – for instance zero-sized ones – are never validated and never checked, so an ActionResult that references a missing object is returned")
+	})
+	if nAdd == 0 {
+		c.Fail(aname, "enqueues-all", c.Pos(add.Pos()), "findMissingQueue.add never adds to the pending set")
+	}
+}
+
+func runR136(c *Ctx) {
+	fn := c.Func("pkg/util", "VisitProtoBytesFields")
+	if fn == nil {
+		c.Broken("util.VisitProtoBytesFields not found")
+		return
+	}
+	name := FuncName(fn)
+	var discards []*ssa.Call
+	var peeks []*ssa.Call
+	allInstrs(fn, func(ins ssa.Instruction) {
+		if cl, ok := ins.(*ssa.Call); ok {
+			if o := calleeObjOf(cl.Common()); o != nil && o.Pkg() != nil && o.Pkg().Path() == "bufio" {
+				switch o.Name() {
+				case "Discard":
+					discards = append(discards, cl)
+				case "Peek":
+					peeks = append(peeks, cl)
+				}
+			}
+		}
+	})
+	if len(discards) == 0 {
+		c.Fail(name, "short-field", c.Pos(fn.Pos()), "no Discard found: the rule is written for the bufio-based visitor")
+		return
+	}
+	for i, d := range discards {
+		dc := d
+		bad := ""
+		var badPos token.Pos
+		// 0 unknown / nil; 1 the error of this Discard is non-nil
+		explorePaths(&pathSpec{Fn: fn, Init: 0,
+			Step: func(st int, ev pathEvent) int {
+				if ev.Ins != nil {
+					if ev.Ins == ssa.Instruction(dc) {
+						return 0
+					}
+					if st == 1 {
+						for _, p := range peeks {
+							if ev.Ins == ssa.Instruction(p) && bad == "" {
+								bad, badPos = "the visitor goes on to the next field", p.Pos()
+							}
+						}
+					}
+					return st
+				}
+				if isNil, ok := edgeSaysErr(ev, dc); ok {
+					if isNil {
+						return 0
+					}
+					return 1
+				}
+				// err == io.EOF: true edge means non-nil
+				if op, x, y, ok := normCmp(ev.Cond, ev.Val); ok && op == token.EQL {
+					if (isIOEOF(y) && isErrResultOf(x, dc)) || (isIOEOF(x) && isErrResultOf(y, dc)) {
+						return 1
+					}
+				}
+				return st
+			},
+			AtReturn: func(st int, r *ssa.Return, _ map[int]bool) {
+				if st == 1 && bad == "" && isNilConst(returnedValue(r, len(r.Results)-1)) {
+					bad, badPos = "the visitor reports success", r.Pos()
+				}
+			}})
+		c.Check(bad == "", name, fmt.Sprintf("short-field discard-%d", i), c.Pos(func() token.Pos {
+			if bad != "" {
+				return badPos
+			}
+			return d.Pos()
+		}()), "a failed Discard ends the traversal with an error", "after a Discard failed (the input ended inside a field) "+bad+": a Tree that was cut off at a field boundary inside a Directory is accepted as complete, and the files listed after the cut are never checked")
+	}
+}
+
+// ---------------------------------------------------------------------------
+// R14.7, R16.7
+
+func init() {
+	register(&Rule{
+		ID: "R14.7", Props: []string{"C14"}, Engine: "flow (result provenance)",
+		Text: "the client's FindMissing answers with everything it collected: in every function of pkg/blobstore/grpcclients that converts missing digests of a response into a digest.SetBuilder (one RPC per instance name and digest function), every return with a nil error returns Build() of that very builder – never an empty or partial set decided inside the loop over the groups",
+		Floor: 2, MustExist: true, Run: runR147,
+	})
+	register(&Rule{
+		ID: "R16.7", Props: []string{"C16"}, Engine: "who-may-call (closure body)",
+		Text: "only operations without a visible partial effect are retried as a whole: the function handed to casErrorHandlingBuffer.tryRepeatedly calls nothing on the buffer it is given except ReadAt, ToProto and ToByteSlice (whose results are discarded on failure); streaming into a caller's writer or handing out a reader must go through the stitching readers, otherwise the bytes delivered before the fault are delivered again",
+		Floor: 3, MustExist: true, Run: runR167,
+	})
+}
+
+func runR147(c *Ctx) {
+	n := 0
+	for _, tf := range c.pkgFuncs("pkg/blobstore/grpcclients") {
+		fn := tf
+		ei := errIndex(fn)
+		if ei < 0 || len(fn.Blocks) == 0 || fn.Signature.Results().Len() != 2 {
+			continue
+		}
+		// the collecting builder: receiver of SetBuilder.Add calls whose argument derives from a response
+		var builders []ssa.Value
+		allInstrs(fn, func(ins ssa.Instruction) {
+			cl, ok := ins.(*ssa.Call)
+			if !ok {
+				return
+			}
+			o := calleeObjOf(cl.Common())
+			if o == nil || o.Name() != "Add" {
+				return
+			}
+			if nt := recvNamed(o); nt == nil || nt.Obj().Name() != "SetBuilder" {
+				return
+			}
+			builders = append(builders, cl.Call.Args[0])
+		})
+		if len(builders) == 0 {
+			continue
+		}
+		if rt, ok := fn.Signature.Results().At(0).Type().(*types.Named); !ok || rt.Obj().Name() != "Set" {
+			continue
+		}
+		n++
+		name := FuncName(fn)
+		bad := token.NoPos
+		for _, r := range returnsOf(fn) {
+			if !isNilConst(returnedValue(r, ei)) {
+				continue
+			}
+			v := returnedValue(r, 0)
+			ok := false
+			if bc, isC := stripConv(v).(*ssa.Call); isC {
+				if o := calleeObjOf(bc.Common()); o != nil && o.Name() == "Build" {
+					for _, b := range builders {
+						if bc.Call.Args[0] == b || sameSource(bc.Call.Args[0], b) {
+							ok = true
+						}
+					}
+				}
+			}
+			if !ok && bad == token.NoPos {
+				bad = r.Pos()
+			}
+		}
+		c.Check(bad == token.NoPos, name, "returns-collected", c.Pos(func() token.Pos {
+			if bad != token.NoPos {
+				return bad
+			}
+			return fn.Pos()
+		}()), "success returns the collected set", "a successful return does not return the set the missing digests were collected in: digests reported missing by the server (for other instance names or digest functions of the same request) are dropped, so missing objects are reported as present")
+	}
+	if n == 0 {
+		c.Fail("grpcclients", "returns-collected", "-", "no FindMissing conversion loop found in the gRPC clients")
+	}
+}
+
+func runR167(c *Ctx) {
+	try := c.Method(bufferRel, "casErrorHandlingBuffer", "tryRepeatedly")
+	if try == nil {
+		c.Broken("casErrorHandlingBuffer.tryRepeatedly not found")
+		return
+	}
+	allowed := map[string]bool{"ReadAt": true, "ToProto": true, "ToByteSlice": true}
+	n := 0
+	for _, tf := range c.pkgFuncs(bufferRel) {
+		withAnon(tf, func(g *ssa.Function) {
+			allInstrs(g, func(ins ssa.Instruction) {
+				cc := callOf(ins)
+				if cc == nil || cc.StaticCallee() != try {
+					return
+				}
+				n++
+				mc, ok := cc.Args[1].(*ssa.MakeClosure)
+				if !ok {
+					c.Fail(FuncName(g), "retry-whole", c.Pos(ins.Pos()), "the operation handed to tryRepeatedly is not a function literal; what it does with the buffer cannot be established")
+					return
+				}
+				body := mc.Fn.(*ssa.Function)
+				bad := ""
+				allInstrs(body, func(i2 ssa.Instruction) {
+					c2 := callOf(i2)
+					if c2 == nil || !c2.IsInvoke() || len(body.Params) == 0 || stripConv(c2.Value) != ssa.Value(body.Params[0]) {
+						return
+					}
+					if !allowed[c2.Method.Name()] {
+						bad = c2.Method.Name()
+					}
+				})
+				c.Check(bad == "", FuncName(g), "retry-whole", c.Pos(ins.Pos()), "only ReadAt / ToProto / ToByteSlice are retried as a whole", "tryRepeatedly is used for "+bad+", which hands bytes to the caller while it runs: after a fault in the middle the replacement starts from offset 0 again and the part already delivered is delivered twice")
+			})
+		})
+	}
+	if n == 0 {
+		c.Fail(FuncName(try), "retry-whole", c.Pos(try.Pos()), "tryRepeatedly is never used")
 	}
 }
